@@ -81,11 +81,15 @@ def sliceDim (base : Nat) : Nat → Val → Except Fail (VTag × List Nat × Nat
   | k + 1, .slice true _ => .ok (⟨base, k⟩, [], 4294967295)
   | k + 1, .slice false [] => .ok (⟨base, k⟩, [0], 0)
   | k + 1, .slice false (x :: xs) =>
-    -- `if val.Index(0).Kind() == reflect.Slice`: the elements are slices iff k > 0 or they are ByteStrings
-    if (k > 0 ∨ base = 15) ∧ ¬ (x :: xs).all (fun y => sliceLen y == sliceLen x) then .error .err
+    -- `if val.Index(0).Kind() == reflect.Slice && val.Index(0).Type() != []byte`: the elements are rows iff k > 0
+    -- (the elements of an array of ByteString are values; until the repair of C01.variant-bytestring-array they
+    -- were compared like rows)
+    if k > 0 ∧ ¬ (x :: xs).all (fun y => sliceLen y == sliceLen x) then .error .err
     else do
       let (et, dim, count) ← sliceDim base k x
-      pure (et, (xs.length + 1) :: dim, (count * (xs.length + 1)) % 4294967296)
+      -- a nil inner slice (count −1) is refused (since the repair of C01.variant-nil-inner-slice)
+      if count = 4294967295 then .error .err
+      else pure (et, (xs.length + 1) :: dim, (count * (xs.length + 1)) % 4294967296)
   | _ + 1, _ => .error .illTyped
 
 /-- `ua.NewVariant(x)` for `x` of Go type `vt` (`⟨0, 0⟩` with `.nil`: the nil interface; `[]byte` is
